@@ -2,6 +2,7 @@
    Statements only; proofs live in Pubkeys/CacheProofs.v.  Impl = Pubkeys/CacheModel.v (explicit heap of
    PubkeyCache objects, the repaired code), Spec = Pubkeys/CacheSpec.v (each handle denotes a list of pubkeys). *)
 From Coq Require Import NArith List Arith.
+From V Require Pubkeys.FarIndex.
 From V Require Import Base.Outcome Pubkeys.CacheSpec Pubkeys.CacheModel Pubkeys.CacheProofs
   Pubkeys.DepositModel Pubkeys.DepositProofs.
 Import ListNotations.
@@ -152,6 +153,13 @@ Proof. exact sibling_leak_run_refuted. Qed.
 Theorem C16_add_validator_diverges_snapshot_refuted :
   forall fuel, add_validator_orig fuel [new_cache [0; 1; 2]%N] 0 1 2%N = OutOfFuel.
 Proof. exact add_validator_diverges_refuted. Qed.
+
+(* indices far beyond a history (validator indices arrive unchecked from the network): the call is refused, nothing changes,
+   and the answer does not depend on how far beyond the index is *)
+Theorem C16_far_index_refused : forall (s : sstate) (v dst i : nat) (p : pubkey) (c : nat),
+  nth_error (svars s) v = Some c -> length (cell s c) < i -> s_step s (OAdd v dst i p) = (s, Err).
+Proof. exact FarIndex.s_step_far_refused. Qed.
+Print Assumptions C16_far_index_refused.
 
 (* non-vacuity: a reachable heap with forks of forks (chain depth 3, one intermediate empty fork), four live
    handles on four different histories that overlap in indices and pubkeys, satisfying every hypothesis of the
